@@ -238,7 +238,7 @@ def transition(root, hist, a):
 def run(run):
     roots = ["shapes", "styled", "vpclip"] if run.tier == "quick" else list(ROOTS)
     depth = 3 if run.tier == "quick" else 6
-    budget = 170 if run.tier == "quick" else 1100
+    budget = 900 if run.tier == "quick" else 1100  # quick is bounded by its depth; the time budget only binds on a heavily loaded machine
     run.rule = (
         f"E1 explicit-state BFS over live SVG objects from {len(roots)} root documents; alphabet of {len(ACTIONS)} actions "
         "(21 operation variants in in-place and copy mode, append_to, 10 queries); state = canonical (tree bytes without flush, shape cache); "
